@@ -1,8 +1,10 @@
 import DaskModel.DriverLib
 import DaskModel.Model.ConfigSpec
+import DaskModel.Model.ConfigInterp
 /-
 Driver handlers of the C17 extension round (appended to the table of `Drivers/stores.lean`):
-`cfg-nd-expect` — `update(old, new, "new-defaults", defaults)` next to the specification `ndExpect` for a list of paths.
+`cfg-nd-expect` — `update(old, new, "new-defaults", defaults)` next to the specification `ndExpect` for a list of paths;
+`iv-interp` / `iv-repr` — `interpret_value` and `repr` on the modelled literal grammar (`Model/ConfigInterp.lean`).
 No Mathlib.
 -/
 namespace Dask.ConfigExt
@@ -50,6 +52,51 @@ def hNdExpect : Handler := handler fun args =>
       .list (qs.map fun pc => .list [.list ((canonPath pc.1 old).map .str), ofCfg (ndExpect pc.2 pc.1 old dflt)])])
   | _ => none
 
-def handlers : List (String × Handler) := [("cfg-nd-expect", hNdExpect)]
+/-! ### interpret_value.  Wire format of a literal: `(i n)`, `(f neg "int-part" "frac-part")`, `(b true|false)`, `(n)`,
+`(s "text")`, `(l (items…))`, `(d ((key value)…))`. -/
+open Dask.Interp in
+partial def ofLit : Lit → SExp
+  | .int i => .list [.sym "i", .int i]
+  | .flt neg ip fp => .list [.sym "f", SExp.ofBool neg, .str (String.ofList ip), .str (String.ofList fp)]
+  | .bool b => .list [.sym "b", SExp.ofBool b]
+  | .none => .list [.sym "n"]
+  | .str s => .list [.sym "s", .str (String.ofList s)]
+  | .list xs => .list [.sym "l", .list (xs.map ofLit)]
+  | .dict kvs => .list [.sym "d", .list (kvs.map fun kv => .list [ofLit kv.1, ofLit kv.2])]
+
+open Dask.Interp in
+partial def toLit? : SExp → Option Lit
+  | .list [.sym "i", .int i] => some (.int i)
+  | .list [.sym "f", neg, ip, fp] => do pure (.flt (← neg.toBool?) (← ip.toStr?).toList (← fp.toStr?).toList)
+  | .list [.sym "b", b] => do pure (.bool (← b.toBool?))
+  | .list [.sym "n"] => some .none
+  | .list [.sym "s", s] => do pure (.str (← s.toStr?).toList)
+  | .list [.sym "l", .list xs] => do pure (.list (← xs.mapM toLit?))
+  | .list [.sym "d", .list kvs] => do
+    let ps ← kvs.mapM fun kv =>
+      match kv with
+      | .list [k, v] => do pure ((← toLit? k), (← toLit? v))
+      | _ => none
+    pure (.dict ps)
+  | _ => none
+
+/-- `(iv-interp "text")` ↦ `(in-scope? (lit L)|(raw "text"))` -/
+def hInterp : Handler := handler fun args =>
+  match args with
+  | [s] => do
+    let cs := (← s.toStr?).toList
+    let r := match Dask.Interp.interpretValue cs with
+      | .lit v => SExp.list [.sym "lit", ofLit v]
+      | .raw t => SExp.list [.sym "raw", .str (String.ofList t)]
+    pure (.list [SExp.ofBool (Dask.Interp.inScope cs), r])
+  | _ => none
+
+/-- `(iv-repr L)` ↦ `"repr(L)"` -/
+def hRepr : Handler := handler fun args =>
+  match args with
+  | [l] => do pure (.str (String.ofList (Dask.Interp.reprLit (← toLit? l))))
+  | _ => none
+
+def handlers : List (String × Handler) := [("cfg-nd-expect", hNdExpect), ("iv-interp", hInterp), ("iv-repr", hRepr)]
 
 end Dask.ConfigExt
